@@ -90,6 +90,11 @@ type Pair struct {
 	OnRead func(r int, n int, err error)
 	// VecWrites counts the writes issued through WriteBuffers with several buffers.
 	VecWrites int
+	// WriteCutOK[w]: a Write at end w may fail (its socket has reported a send
+	// error, after which the library refuses further writes): the flow then
+	// ends with what had been accepted. WriteCut[w] tells that it happened.
+	WriteCutOK [2]bool
+	WriteCut   [2]bool
 }
 
 func mkAddr(str bool, host byte, port int) net.Addr {
@@ -226,6 +231,14 @@ func (p *Pair) Pump() bool {
 		// writer
 		if f.wcall != nil && f.wcall.Done() {
 			n := f.app.Writes[f.wi]
+			if f.wcall.Err != nil && p.WriteCutOK[w] && f.wcall.N == 0 {
+				// nothing of this write was accepted; the stream ends here
+				p.WriteCut[w] = true
+				f.wcall = nil
+				f.wi = len(f.app.Writes)
+				f.total = f.sentBytes
+				continue
+			}
 			if f.wcall.Err != nil {
 				s.Fail("Write(%d bytes) at end %d failed: %v", n, w, f.wcall.Err)
 				return false
